@@ -1,14 +1,39 @@
 use super::{constant::*, ConfigEntity};
 use crate::{base::ResourceType, logging, utils, Error, Result};
 use serde_yaml;
-use std::cell::RefCell;
+use lazy_static::lazy_static;
 use std::env;
 use std::fs::File;
 use std::io::prelude::*;
 use std::path::Path;
 
-thread_local! {
-    static GLOBAL_CONFIG : RefCell<ConfigEntity> = RefCell::new(ConfigEntity::new());
+/// The configuration is process-wide: what `init_*` sets on one thread is what every thread reads.
+/// `ConfigCell` keeps the `with`/`try_with` + `borrow`/`borrow_mut` shape the accessors below are written against.
+struct ConfigCell(std::sync::RwLock<ConfigEntity>);
+
+impl ConfigCell {
+    fn borrow(&self) -> std::sync::RwLockReadGuard<'_, ConfigEntity> {
+        self.0.read().unwrap_or_else(|e| e.into_inner())
+    }
+
+    fn borrow_mut(&self) -> std::sync::RwLockWriteGuard<'_, ConfigEntity> {
+        self.0.write().unwrap_or_else(|e| e.into_inner())
+    }
+
+    fn with<R>(&self, f: impl FnOnce(&ConfigCell) -> R) -> R {
+        f(self)
+    }
+
+    fn try_with<R>(
+        &self,
+        f: impl FnOnce(&ConfigCell) -> R,
+    ) -> std::result::Result<R, std::convert::Infallible> {
+        Ok(f(self))
+    }
+}
+
+lazy_static! {
+    static ref GLOBAL_CONFIG: ConfigCell = ConfigCell(std::sync::RwLock::new(ConfigEntity::new()));
 }
 
 pub fn reset_global_config(entity: ConfigEntity) {
